@@ -219,3 +219,75 @@ func init() {
 		}
 	}
 }
+
+// swizzle.checked (C11): WGSL rejects a swizzle letter beyond the vector's width
+// (v.z on a vec2). The lowerer maps a letter to a component with a raw mapper
+// (byte -> (ir.SwizzleComponent, ok)) that knows nothing about the vector; every
+// function that calls the raw mapper must itself compare the component with an
+// ir.VectorSize value (the width check). A caller that uses the mapped
+// component without that comparison accepts out-of-range swizzles on its path
+// (e.g. only on the left-hand side of assignments).
+func (c *Ctx) runSwizzleChecked(r *Report, rule string) {
+	n := 0
+	for _, fn := range c.allFuncs() {
+		if fn.Pkg.Rel != "wgsl/internal/lower" {
+			continue
+		}
+		info := fn.Pkg.Info
+		calls := 0
+		ast.Inspect(fn.Decl.Body, func(m ast.Node) bool {
+			call, ok := m.(*ast.CallExpr)
+			if !ok {
+				return true
+			}
+			f := calleeOf(info, call)
+			if f == nil {
+				return true
+			}
+			sig := f.Type().(*types.Signature)
+			if sig.Recv() == nil && sig.Params().Len() == 1 && sig.Results().Len() == 2 && irTypeName(sig.Results().At(0).Type()) == "SwizzleComponent" {
+				if b, ok := sig.Params().At(0).Type().Underlying().(*types.Basic); ok && (b.Kind() == types.Uint8 || b.Kind() == types.Int32) {
+					calls++
+				}
+			}
+			return true
+		})
+		if calls == 0 {
+			continue
+		}
+		mentions := func(e ast.Expr, typeName string) bool {
+			hit := false
+			ast.Inspect(e, func(k ast.Node) bool {
+				if id, ok := k.(*ast.Ident); ok {
+					if o := info.Uses[id]; o != nil && irTypeName(o.Type()) == typeName {
+						hit = true
+					}
+				}
+				return !hit
+			})
+			return hit
+		}
+		checked := false
+		ast.Inspect(fn.Decl.Body, func(m ast.Node) bool {
+			be, ok := m.(*ast.BinaryExpr)
+			if !ok {
+				return true
+			}
+			switch be.Op.String() {
+			case "<", "<=", ">", ">=":
+				if (mentions(be.X, "SwizzleComponent") && mentions(be.Y, "VectorSize")) || (mentions(be.Y, "SwizzleComponent") && mentions(be.X, "VectorSize")) {
+					checked = true
+				}
+			}
+			return true
+		})
+		n++
+		cons := fn.id() + ":width-check"
+		if checked {
+			r.ok(rule, cons, c.pos(fn.Decl.Pos()), "")
+		} else {
+			r.viol(rule, cons, c.pos(fn.Decl.Pos()), fn.id()+" maps a swizzle letter to a component with the raw mapper but never compares the component with the vector's size: a component beyond the vector's width is accepted on this path")
+		}
+	}
+	r.inst("swizzle.checked", n)
+}
